@@ -1,6 +1,6 @@
 (* CanonRoundtrip.v — C01 in full: every (layout, value) pair of the decidable class `canon` serialises
    to the bytes `canon` returns, and those bytes read back as exactly that value with nothing left. *)
-From Zvt Require Import Base Length LengthProps Cp437 Encoding EncodingProps Codec CodecTotal CodecFrame CodecRoundtrip CodecTags CodecFields CodecCanon CanonClass.
+From Zvt Require Import Base Length LengthProps Cp437 Encoding EncodingProps Utf8Props Codec CodecTotal CodecFrame CodecRoundtrip CodecTags CodecFields DateTimeProps CodecCanon CanonClass.
 From Coq Require Import ZifyBool ZifyNat ZifyN Permutation.
 Ltac Zify.zify_post_hook ::= Z.div_mod_to_equations.
 Open Scope N_scope.
@@ -717,4 +717,24 @@ Proof.
     destruct (framed_roundtrip LAdpu true (Some (cf c)) (dec_struct_with (dec fuel) (c_fields c)) (pos ++ gbytes gs') (VRec vs) r eq_refl) as [b2 [Hb2 Hr]];
       [cbn [len_fits]; lia|cbn [tag_ok]; lia|apply Hdec; assumption|].
     rewrite Hb' in Hb2. injection Hb2 as <-. exact Hr.
+Qed.
+
+(* ---------- UTF-8 text and date-times are inside the class as whole families too ---------- *)
+
+Lemma class_utf8 ls tag s ctx : delimiting ls = true -> tag_ok_b tag = true -> forallb scalar_ok s = true ->
+  (forall bs, utf8_enc s = Ok bs -> len_fits ls (blen bs) = true) ->
+  exists g, canon ls EUtf8 (TPrim PString) tag (VStr s) ctx = Some g.
+Proof.
+  intros Hd Ht Hs Hf. destruct (utf8_roundtrip s Hs) as [bs [He Hdec]]. cbn [canon].
+  apply (canon_prim_of_payload ls EUtf8 PString tag (VStr s) bs ctx Hd (Hf bs He) Ht); [|reflexivity|exact I].
+  split; cbn [prim_enc prim_dec]; [exact He|rewrite Hdec; reflexivity].
+Qed.
+
+Lemma class_datetime tag (y : Z) mo d h mi s ctx : tag_ok_b tag = true ->
+  (0 <= y <= 9999)%Z -> ymd_ok y mo d = true -> hms_ok h mi s = true ->
+  exists g, canon LTlv EDefault (TPrim PDateTime) tag (VDate y mo d h mi s) ctx = Some g.
+Proof.
+  intros Ht Hy Hd Hh. destruct (datetime_roundtrip y mo d h mi s Hy Hd Hh) as [bs [He [Hdec Hl]]]. cbn [canon].
+  apply (canon_prim_of_payload LTlv EDefault PDateTime tag (VDate y mo d h mi s) bs ctx eq_refl); [cbn [len_fits]; lia|exact Ht| |reflexivity|exact I].
+  split; cbn [prim_enc prim_dec]; [exact He|exact Hdec].
 Qed.
